@@ -522,3 +522,7 @@ M("C01", "Hamiltonian fast path taken when phases are present", "kill",
 M("C06", "Lindbladian local term: phase-free formula on the complex side", "kill",
   [(LO2, "        if not self.complex:\n            return omega * sigma_x", "        if self.complex:\n            return omega * sigma_x")], "PHASE-shortcut")
 M("C16", "twin: flag written with torch.any", "twin", [(LO2, "        self.complex = self.phis.any()\n", "        self.complex = torch.any(self.phis != 0)\n")])
+M("C27", "resume swaps in a pending .new file before loading", "kill",
+  [(BK, "        if not autosave_file.is_file():\n            raise ValueError", "        pending = autosave_file.with_suffix(\".new\")\n        if pending.is_file():\n            os.replace(pending, autosave_file)\n\n        if not autosave_file.is_file():\n            raise ValueError")], "SAVE-resume")
+M("C27", "resume removes the snapshot before loading it", "kill",
+  [(BK, "        with open(autosave_file, \"rb\") as f:\n            impl: MPSBackendImpl = pickle.load(f)", "        data = autosave_file.read_bytes()\n        os.remove(autosave_file)\n        impl: MPSBackendImpl = pickle.loads(data)")], "SAVE-resume")
